@@ -73,7 +73,9 @@ const FIELD_POOL: &[&str] = &[
 
 /// line-level mutations of a text
 pub fn mutate_text(t: &mut Tape, text: &str) -> String {
-    let mut lines: Vec<String> = text.split('\n').map(|s| s.to_string()).collect();
+    // mutations are line / field level: the line terminator (LF or CRLF) is not part of a line
+    let crlf = text.contains("\r\n");
+    let mut lines: Vec<String> = text.split('\n').map(|s| s.strip_suffix('\r').unwrap_or(s).to_string()).collect();
     if lines.len() > 400 {
         // keep a window of a large map
         let start = t.below(lines.len() - 300);
@@ -138,7 +140,7 @@ pub fn mutate_text(t: &mut Tape, text: &str) -> String {
             }
         }
     }
-    lines.join("\n")
+    lines.join(if crlf { "\r\n" } else { "\n" })
 }
 
 /// splice two texts at line boundaries
